@@ -445,9 +445,54 @@ func r15bIn(c *RuleCtx, props []string, fn *ssa.Function, file ssa.Value, acqPos
 			}
 		}
 	}
-	c.add2(len(bad) == 0 && counter != nil, props, name+"/all-bytes-counted", acqPos, "in "+name+" the file and its buffered writer are used only by the counting writer's constructor, Flush, Sync, Close and the cleanup closure",
-		strings.Join(bad, "; ")+fmt.Sprintf(" (counting writer found: %v)", counter != nil))
-	if counter == nil {
+	// the counting writer that the file's owner keeps, built in its constructor on the buffered writer it
+	// also keeps (`out.cr`, with `cr: NewCountHashWriterWithStatsReporter(br, s)` next to `br: br`)
+	counterField := -1
+	if counter == nil && bufw == nil && stagedBuf == nil && delegate == nil && ownerOfType(c.p.owners, file.Type()) != nil {
+		eachInstr(fn, func(_ *ssa.BasicBlock, in ssa.Instruction) {
+			fa, ok := in.(*ssa.FieldAddr)
+			if !ok || rootNoAlias(fa.X) != rootNoAlias(file) || !ownerWrapperField(fa) {
+				return
+			}
+			if isNamed(derefType(derefType(fa.Type())), zapPkgPath, "CountHashWriter") {
+				counterField = fa.Field
+			}
+		})
+	}
+	if counterField >= 0 {
+		// … and nothing in fn writes through the buffered writer the owner keeps under it
+		for _, cs := range callSites(fn) {
+			for _, a := range cs.Common().Args {
+				u, ok := a.(*ssa.UnOp)
+				if !ok || u.Op != token.MUL {
+					continue
+				}
+				fa, ok := u.X.(*ssa.FieldAddr)
+				if !ok || rootNoAlias(fa.X) != rootNoAlias(file) || !ownerWrapperField(fa) || !isNamed(derefType(derefType(fa.Type())), "bufio", "Writer") {
+					continue
+				}
+				if nm := calleeName(cs); !allowedBuf[nm] {
+					bad = append(bad, "the buffered writer the owner keeps is handed to "+nm+" ("+c.pos(cs)+"): bytes written there are not counted")
+				}
+			}
+		}
+	}
+	isCounter := func(v ssa.Value) bool {
+		if counter != nil && root(v) == ssa.Value(counter) {
+			return true
+		}
+		if counterField >= 0 {
+			if u, ok := v.(*ssa.UnOp); ok && u.Op == token.MUL {
+				if fa, ok := u.X.(*ssa.FieldAddr); ok && fa.Field == counterField && rootNoAlias(fa.X) == rootNoAlias(file) {
+					return true
+				}
+			}
+		}
+		return false
+	}
+	c.add2(len(bad) == 0 && (counter != nil || counterField >= 0), props, name+"/all-bytes-counted", acqPos, "in "+name+" the file and its buffered writer are used only by the counting writer's constructor, Flush, Sync, Close and the cleanup closure",
+		strings.Join(bad, "; ")+fmt.Sprintf(" (counting writer found: %v)", counter != nil || counterField >= 0))
+	if counter == nil && counterField < 0 {
 		return
 	}
 	// the reported size is Count() of that writer, read after the footer was written
@@ -478,7 +523,7 @@ func r15bIn(c *RuleCtx, props []string, fn *ssa.Function, file ssa.Value, acqPos
 				v = cv.X
 			}
 			if call, ok := v.(*ssa.Call); ok {
-				if f := call.Call.StaticCallee(); f != nil && f.Name() == "Count" && len(call.Call.Args) > 0 && root(call.Call.Args[0]) == ssa.Value(counter) {
+				if f := call.Call.StaticCallee(); f != nil && f.Name() == "Count" && len(call.Call.Args) > 0 && isCounter(call.Call.Args[0]) {
 					if footer != nil && ((footer.Block() == call.Block() && instrIndex(footer) < instrIndex(call)) || (footer.Block() != call.Block() && footer.Block().Dominates(call.Block()))) {
 						okc = true
 					} else if footer != nil && footerOnEveryPathTo(fn, footer, call) {
